@@ -7,6 +7,9 @@ use serde_json::{Value, json};
 pub const LINES: &[&str] = &[
     "a", "b", "  b", "b  ", "ab", "B", "", "   ", "\t", "2", "10", "9.5", "-3", "0", "-0", "1e1", "x=2", "x=10 y",
     " x=3", "é", "z\u{3000}", "\u{a0}a", "aé b", "x=2 # c", "ab ", "a b", "10 ", "+5", ".5", "5.", "1.50", "1.5",
+    // lines that are blank only by Unicode standards (`str::trim` / `char::is_whitespace`): NBSP, em space, ideographic
+    // space, vertical tab, NEL, line separator - alone or mixed with ASCII blanks
+    "\u{a0}", " \u{2003}\t", "\u{3000}\u{3000}", "\u{b}", "\u{85} ", "\u{2028}",
 ];
 const DIRS: &[&str] = &["", "asc", "desc", "ASC", "Desc", "dEsC", "  "];
 const BAD_DIRS: &[&str] = &[" asc", "up", "ascending", "asc ", "a", "descc"];
@@ -114,6 +117,16 @@ pub fn generate(_ctx: &mut Ctx, seed: u64, i: usize, kind: &str, always_malforme
             attrs.push(("line-count".into(), v));
         }
     }
+    // one case in four of a synchronous rule: a healthy scripted block in the same run with every validator enabled - the
+    // run then takes the branch of `run` that joins the sync and the async half; an error (or a violation) of the sync rule
+    // must survive that
+    let mut with_async = false;
+    if !["check-lua", "check-ai"].contains(&kind) && rng.chance(1, 4) {
+        let ok = format!("{}/nil.lua", crate::gen_lua::lua_dir());
+        healthy_lua = Some(ok.clone());
+        asyncs.push(json!({"v": "check-lua", "arg": ok, "out": Value::Null}));
+        with_async = true;
+    }
     if rng.chance(1, 3) {
         let s = if rng.chance(1, 5) { *rng.pick(BAD_SEVERITIES) } else { *rng.pick(SEVERITIES) };
         attrs.push(("severity".into(), s.into()));
@@ -199,6 +212,7 @@ pub fn generate(_ctx: &mut Ctx, seed: u64, i: usize, kind: &str, always_malforme
         }
         enabled = vec![];
     }
+    if with_async { enabled = vec![]; }
     let path = format!("f.{}", lang.ext);
     let changes = if all_changed {
         Some([(path.clone(), (1..=src.lines().count() + 1).map(|l| (l, None)).collect())].into_iter().collect())
@@ -268,7 +282,7 @@ fn space(kind: &str, maxlen: usize) -> Space {
                     configs.push(vec![("line-count", format!("{op}{n}"))]);
                 }
             }
-            Space { alphabet: &["x", "", "  ", "y z"], configs, patterns, inline_variants: 2 }
+            Space { alphabet: &["x", "", "  ", "y z", "\u{a0}\u{2003}"], configs, patterns, inline_variants: 2 }
         }
     }
 }
